@@ -5,7 +5,7 @@ The 12 scalar types are decided by exprsmt's Kani route (C14) and are not repeat
 """
 from __future__ import annotations
 
-from .wtypes import (Res, record, tup, enum, flags, variant, option, result, lst, own, borrow, STRING,
+from .wtypes import (Res, record, tup, enum, flags, variant, option, result, lst, mapty, own, borrow, STRING,
                      BOOL, U8, S8, U16, S16, U32, S32, U64, S64, F32, F64, CHAR)
 from .assemble import Func, World
 
@@ -78,7 +78,13 @@ def _has_string(t):
     return t is not None and (t.kind == "string" or any(_has_string(c) for c in children(t)))
 
 
+def maps_world():
+    return World("w", [Func("f-map", [("x", mapty(U8, U32))], mapty(U8, U32), "map-u8-u32", special="map")])
+
+
 def world(cfg=None):
+    if cfg is not None and cfg.get("world") == "maps":
+        return maps_world()
     imp = [Func("eat", [("x", own(RI))], None, "-"), Func("peek", [("x", borrow(RI))], U32, "-"), Func("mk", [], own(RI), "-")]
     fs = funcs()
     if cfg is not None and cfg["opts"].get("raw_strings") == "true":
@@ -101,7 +107,10 @@ def configs(tier, seed):
            "classes": ALT_CLASSES}
     if tier != "thorough":
         return [base, alt]
-    out = [base]
+    # maps: default map type (BTreeMap) only, concrete entry counts 0 and 1.  HashMap (map_type=std::collections::HashMap):
+    # a single concrete entry does not finish in 600 s of CBMC (RandomState / SipHash, 12 foreign functions) -> outside the claim
+    maps = {"name": "maps-btreemap", "opts": {}, "std": False, "classes": None, "resources": False, "bitflags": True, "world": "maps"}
+    out = [base, maps]
     for own_ in ("owning", "borrowing"):
         for std in (False, True):
             if own_ == "owning" and not std:
